@@ -493,8 +493,8 @@ func (g *Gen) havocTargets(f *Frame, env *Env, targets []modLoc) {
 			g.verBound[n] = g.now(f.st)
 			if l.exceptRef != "" {
 				// only the backing array exceptRef (and fresh arrays) may differ
-				g.emit("(assert (=> %s (forall ((r Int)) (=> (and (not (= r %s)) (<= r %s)) (= (select %s r) (select %s r))))))",
-					f.en, l.exceptRef, g.now(env.st), n, oldc)
+				g.emit("(assert (=> %s (forall ((r Int)) (! (=> (and (not (= r %s)) (<= r %s)) (= (select %s r) (select %s r))) :pattern ((select %s r)) :pattern ((select %s r))))))",
+					f.en, l.exceptRef, g.now(env.st), n, oldc, n, oldc)
 			}
 			continue
 		}
